@@ -69,7 +69,11 @@ impl FeatureState for GroupState {
         }
     }
 
-    fn accept_route_state(&self, _: &mut RouteContext) {}
+    fn accept_route_state(&self, route_ctx: &mut RouteContext) {
+        // NOTE the route state is cleared before features are asked to refresh it
+        let groups = get_groups(route_ctx);
+        route_ctx.state_mut().set_current_groups(groups);
+    }
 
     fn accept_solution_state(&self, solution_ctx: &mut SolutionContext) {
         solution_ctx.routes.iter_mut().for_each(|route_ctx| {
